@@ -271,6 +271,11 @@ def enum_variant_of(path):
     if len(segs) >= 2 and (segs[-2] + '::' + segs[-1]) in ENUMS: return (segs[-1], ENUMS[segs[-2] + '::' + segs[-1]])
     return None
 
+def subst_generics(gs):
+    """a generic function instantiating another with its own type parameter (`f::<T>`): T stands for what the caller was instantiated with"""
+    prev = GENERICS[-1] if GENERICS else []
+    return [(prev[0] if re.fullmatch(r'[A-Z]', g) and prev else g) for g in gs]
+
 def disc_value(e, ctx):
     if hasattr(e, 'idx'): return e.idx
     if e.variant in DISC: return DISC[e.variant]
@@ -793,6 +798,16 @@ def call(fr, callee, args, ctx):
         res = Extract(w - 1, 0, wide)
         if ctx.branch(ZeroExt(w, res) != wide): raise NotEncodable('reachable panic: arithmetic overflow in ' + c)
         return res
+    mr_ = re.fullmatch(r'(?:std::result::)?Result::<.*>::(unwrap|expect|ok|is_ok|is_err|unwrap_or)(?:::<.*>)?', c)
+    if mr_ and isinstance(_d(args[0]), Enum) and _d(args[0]).variant in ('Ok', 'Err'):
+        r_ = _d(args[0]); k_ = mr_.group(1)
+        if k_ in ('unwrap', 'expect'):
+            if r_.variant != 'Ok': raise NotEncodable('reachable panic: unwrap on Err')
+            return r_.f[0]
+        if k_ == 'ok': return Enum('Some', [r_.f[0]]) if r_.variant == 'Ok' else Enum('None', [])
+        if k_ == 'is_ok': return r_.variant == 'Ok'
+        if k_ == 'is_err': return r_.variant == 'Err'
+        if k_ == 'unwrap_or': return r_.f[0] if r_.variant == 'Ok' else args[1]
     mg_ = re.fullmatch(r'core::str::<impl str>::get::<(?:std::ops::)?(RangeFrom|RangeTo|Range)<usize>>', c)
     if mg_:
         s_ = _d(args[0]); r_ = args[1]
@@ -800,6 +815,12 @@ def call(fr, callee, args, ctx):
         lo, hi = {'RangeFrom': lambda: (vals[0], len(s_.b)), 'RangeTo': lambda: (0, vals[0]), 'Range': lambda: (vals[0], vals[1])}[mg_.group(1)]()
         if lo > hi or hi > len(s_.b): return Enum('None', [])
         return Enum('Some', [Str(s_.b[lo:hi])])
+    mab_ = re.fullmatch(r'core::num::<impl i(8|16|32|64)>::(abs|unsigned_abs)', c)
+    if mab_:
+        a = args[0]
+        if isinstance(a, int): return abs(a)
+        if mab_.group(2) == 'abs' and ctx.branch(a == BitVecVal(1 << (a.size() - 1), a.size())): raise NotEncodable('reachable panic: attempt to negate with overflow (abs)')
+        return If(a < 0, -a, a)
     me_ = re.fullmatch(r'core::num::<impl i(8|16|32|64)>::(rem_euclid|div_euclid)', c)
     if me_:
         a, b = args[0], args[1]
@@ -970,14 +991,16 @@ def call(fr, callee, args, ctx):
     mi = re.match(r'<\[(.*)\] as Index<(?:std::ops::)?(RangeInclusive|Range|RangeFrom|RangeTo)<usize>>>::index$', c) or re.match(r'core::slice::index::<impl Index<(?:std::ops::)?(RangeInclusive|Range|RangeFrom|RangeTo)<usize>> for \[(.*)\]>::index$', c)
     if mi:
         seq = _d(args[0]); rg = _d(args[1])
-        xs = seq.items if isinstance(seq, VecV) else seq.f
+        st_, off_ = seq_store(seq); xs = st_[off_:]
         kind = 'RangeInclusive' if 'RangeInclusive' in c else ('RangeFrom' if 'RangeFrom' in c else ('RangeTo' if 'RangeTo' in c else 'Range'))
         vals = list(rg) if isinstance(rg, tuple) else list(rg.f)
         if kind == 'RangeInclusive': lo, hi = vals[0], vals[1] + 1
         elif kind == 'Range': lo, hi = vals[0], vals[1]
         elif kind == 'RangeFrom': lo, hi = vals[0], len(xs)
         else: lo, hi = 0, vals[0]
-        return VecV(list(xs[lo:hi]))
+        lo, hi = concrete_index(lo), concrete_index(hi)
+        if lo > hi or hi > len(xs): raise NotEncodable('reachable panic: slice index out of range')
+        return Str(list(xs[lo:hi])) if isinstance(seq, Str) else VecV(list(xs[lo:hi]))
     if re.search(r'as Iterator>::fold::<', c):
         it, acc, clo = args
         while True:
@@ -1010,12 +1033,12 @@ def call(fr, callee, args, ctx):
         cands = [n for n, f in FNS.items() if n.endswith('::' + meth) and '<impl at' in n and re.match(r'_1: &?(mut )?(?:\w+::)*%s\b' % re.escape(ty), f.ptext)]
         if len(cands) > 1: cands = [n for n in cands if FNS[n].params == len(args)]
         if len(cands) != 1:    # associated function without a receiver (constructor): resolve by the result type
-            cands = [n for n, f in FNS.items() if n.endswith('::' + meth) and '<impl at' in n and re.fullmatch(r'(?:\w+::)*%s(<.*>)?' % re.escape(ty), f.ret.strip())
+            cands = [n for n, f in FNS.items() if n.endswith('::' + meth) and '<impl at' in n and re.fullmatch(r'(?:(?:std::result::|core::result::)?Result<|(?:std::option::)?Option<)?(?:\w+::)*%s(<.*>)?(,.*>|>)?' % re.escape(ty), f.ret.strip())
                      and len(args) == f.params]
         if len(cands) != 1 and '<impl ' not in c and not c.startswith(('core::', 'std::', 'alloc::')):    # associated function whose name and arity are unique among the impl blocks of the dumped crates
             cands = [n for n, f in FNS.items() if n.endswith('>::' + meth) and '<impl at' in n and f.params == len(args)]
         if len(cands) == 1:
-            GENERICS.append(split_top(m.group(3)) if m.group(3) else [])
+            GENERICS.append(subst_generics(split_top(m.group(3)) if m.group(3) else []))
             try: return run_fn(cands[0], args, ctx)
             finally: GENERICS.pop()
     if c.startswith('<Self as ') and SELF_TYPES:
@@ -1046,7 +1069,7 @@ def call(fr, callee, args, ctx):
         nm = m.group(1)
         cands = [n for n in FNS if n == nm or n.endswith('::' + nm)]
         if len(cands) == 1:
-            GENERICS.append(split_top(m.group(2)) if m.group(2) else [])
+            GENERICS.append(subst_generics(split_top(m.group(2)) if m.group(2) else []))
             try: return run_fn(cands[0], args, ctx)
             finally: GENERICS.pop()
     raise NotEncodable('no contract for ' + c)
